@@ -206,3 +206,34 @@ prop(
     assumptions=["replies are awaited for a bounded time"],
 )
 
+WS_NONTRIV = ["ignored-foreign-owner", "slot-collision", "close-with-entries", "close-after-ignored-announce",
+              "second-peer-id-closes", "clean-removed-peers", "offers-forwarded", "answer-forwarded", "answer-refused",
+              "halves-branch"]
+
+prop(
+    "C08",
+    module="Aquatic.Props.C08",
+    extra_modules=["Aquatic.Props.WsStore"],
+    technique="Lean 4 refinement proof (induction over histories of announce / scrape / close / clean: swarm store with cached seeder counts and IndexMap order + the socket worker's per-connection records refine a flat reference tracker with per-entry ownership) + differential correspondence against the real aquatic_ws TorrentMaps",
+    runs=[dict(harness="wsstore", driver="wsstore", quick=dict(cases=500, maxops=60), thorough=dict(cases=30000, maxops=140))],
+    nontrivial=WS_NONTRIV,
+    level_text="Machine-checked refinement theorem: for every history of announces (all events, left absent / 0 / positive, offers, answers), scrapes, connection closures and cleaning passes, from any connections (socket worker id x slot key), with every in-range outcome of the random draws, the model never reaches a panic outcome (no counter underflow) and each operation's messages are those of the reference tracker: one entry per (torrent, peer id), owned by the connection that created it; announce counts include the announcer; stopped removes; left = 0 is a seeder; an announce under a peer id stored by another connection is ignored with no reply and no effect, also when that connection later closes; closing removes exactly the connection's own entries (proved on the model: every other peer and its outstanding offers are unchanged); a scrape lists every requested torrent with stored peers with the reference's counts and nothing else but zero counts. Tie: generated histories on the real TorrentMaps (handle_announce_request / handle_scrape_request / handle_connection_closed / clean) with coinciding slot keys across socket workers, shared peer ids, every order of announces and closures; every message compared with the model (for SOME in-range draws) and with the reference.",
+    level_note="Trusted: Lean kernel; hand-written model (fidelity checked by sampled differential runs); the harness plays the socket worker (announced_info_hashes record, gate, close) - that emulation is compared with the model's on every close and with the real socket worker by the C17 socket-level runs. One address family is modelled (the two TorrentMaps are independent).",
+    design_ref="§8 C08",
+    assumptions=["a closed connection's (socket worker, slot key) pair is not handed out again while its close message is in flight (slotmap versioned keys)",
+                 "sequential histories at the swarm worker (message overtaking is C17)"],
+)
+
+prop(
+    "C09",
+    module="Aquatic.Props.C09",
+    extra_modules=["Aquatic.Props.WsStore"],
+    technique="Lean 4 proof (same refinement as C08 plus theorems on the reference's offer / answer rules: receivers allowed, message shape and count, answer forwarded iff outstanding offer, consumed on use, outstanding offers only from forwarded offers) + differential correspondence against the real aquatic_ws TorrentMaps",
+    runs=[dict(harness="wsstore", driver="wsstore", quick=dict(cases=500, maxops=60), thorough=dict(cases=30000, maxops=140))],
+    nontrivial=["offers-forwarded", "answer-forwarded", "answer-refused", "answer-to-unknown-peer", "halves-branch", "offset-choices>1", "clean-removed-peers"],
+    level_text="Theorems: for every reachable store, announce and in-range draws the receivers of offers are distinct stored peers of the same torrent and family, never the sender, exactly min(offers sent, max_offers, other peers) many, each message addressed to the connection owning the receiving peer and tagged with the sender's peer id, offers paired with receivers in order (distinct offers to distinct peers); a stopped announce forwards nothing; an answer is forwarded - to the offering peer's connection only - exactly when the addressed peer is stored and holds an outstanding offer with that id towards the answering peer, which is thereby consumed (the same answer again is refused); otherwise an error reply to the answerer or nothing; outstanding offers arise only from offers forwarded by an announce and are only removed by stop / close / cleaning (expired ones dropped). All lifted to every history by the refinement theorem. Tie: as C08, with answers that match, repeat, come from the wrong peer / torrent, after the offerer stopped, was cleaned, or the offer aged out.",
+    level_note="Trusted: as C08; the SDP payloads are opaque tags.",
+    design_ref="§8 C09",
+    assumptions=["as C08"],
+)
+
